@@ -22,6 +22,7 @@ DEVS = {"Code_NotifyLossy": "error-notification-dropped",
 ALLKINDS = ["TASK_FAILED", "TASK_LOST", "TASK_KILLED", "TASK_FINISHED", "EXECUTOR_LOST", "AGENT_LOST", "INTERNAL_ERROR"]
 AGENTS = [{"ID": "a%d" % i, "Host": "h%d" % i, "Attrs": {"machine_id": "h%d" % i}, "CPUs": 16, "Mem": 16384,
            "Ports": [[9000, 9200], [30000, 30200]]} for i in (1, 2, 3)]
+ALLVIAS = ("direct", "recon", "master", "masterrecon")
 NOT_IE = ["TASK_FAILED", "TASK_LOST", "TASK_KILLED", "EXECUTOR_LOST", "AGENT_LOST"]
 ANYSTATE = ["STANDBY", "DEPLOYED", "CONFIGURED", "RUNNING", "ERROR", "DONE", "GONE", "MIXED"]
 OPS = {"START": "START_ACTIVITY", "STOP": "STOP_ACTIVITY"}
@@ -168,7 +169,10 @@ def scenario(sid, shape, script, long_ms, origin="gen"):
                 # a task that went to ERROR on its own answers every later command with an error
                 steps += [{"do": "script", "rule": {"class": cls, "outcome": "err_error"}}]
             # (a fourth element "recon": the master's answer to a reconciliation request carries the terminal state)
-            steps += [{"do": "reconfault" if len(s) > 3 and s[3] == "recon" else "fault", "kind": s[1], "class": cls}]
+            # "master" / "masterrecon": the update is generated by the master (no uuid, no executor id)
+            via = s[3] if len(s) > 3 else "direct"
+            steps += [{"do": {"direct": "fault", "recon": "reconfault"}.get(via, "masterfault"), "kind": s[1], "class": cls,
+                       "op": "recon" if via == "masterrecon" else ""}]
             if marmed and s[1] != "TASK_FINISHED" and s[1] != "INTERNAL_ERROR":
                 steps += [{"do": "waitgate", "point": "wf.taskrole.merged", "timeout_ms": 3000}]
             if sarmed and s[1] in ("TASK_FAILED", "TASK_LOST", "TASK_KILLED"):
@@ -239,6 +243,8 @@ def instant_of(shape, script):
         parts.append("reused-task")
     if any(s[0] == "fault" and len(s) > 3 and s[3] == "recon" for s in script):
         parts.append("learnt-by-reconciliation")
+    if any(s[0] == "fault" and len(s) > 3 and s[3].startswith("master") for s in script):
+        parts.append("master-generated-" + [s[3] for s in script if s[0] == "fault" and len(s) > 3][0])
     seen = False
     for s in script:
         if s[0] == "fault":
@@ -351,9 +357,15 @@ def pick(ctx, cases, quick):
     fault_of = lambda c: [s for s in c[1] if s[0] == "fault"][0]
     steps_of = lambda c: tuple(s[0] for s in c[1])
     # a master-generated TASK_RUNNING update (no executor id / no ids) for the later victim, then every failure kind
-    take(lambda c: two(c) and c[1][0][0] == "mupdate" and c[1][0][1] == fault_of(c)[2] and c[0]["layout"] == "own" and victim_crit(c),
+    take(lambda c: two(c) and c[1][0][0] == "mupdate" and c[1][0][1] == fault_of(c)[2] and c[0]["layout"] == "own" and victim_crit(c)
+         and len(fault_of(c)) == 3,
          lambda c: (kinds(c), c[1][0][2]), 1 if quick else 2)
-    take(lambda c: two(c) and c[1][0][0] == "mupdate" and c[1][0][1] == fault_of(c)[2] and mixed(c) and not victim_crit(c),
+    # ... and then a terminal update that is generated by the master as well: two updates without uuid in a row for one task
+    take(lambda c: two(c) and c[1][0][0] == "mupdate" and c[1][0][1] == fault_of(c)[2] and c[0]["layout"] == "own" and victim_crit(c)
+         and len(fault_of(c)) > 3 and fault_of(c)[3].startswith("master"),
+         lambda c: (kinds(c), fault_of(c)[3]) if quick else (kinds(c), fault_of(c)[3], c[1][0][2], c[0]["state"]), 1)
+    take(lambda c: two(c) and c[1][0][0] == "mupdate" and c[1][0][1] == fault_of(c)[2] and mixed(c) and not victim_crit(c)
+         and len(fault_of(c)) == 3,
          lambda c: c[1][0][2], 1 if quick else 3)
     # a task dies owing its answer to the racing transition; the answer arrives within / beyond the watcher's grace period
     owed = lambda c: c[1][0][0] == "api" and c[1][0][2] == "owed"
@@ -380,7 +392,8 @@ def pick(ctx, cases, quick):
     # a terminal status learnt through reconciliation (reason REASON_RECONCILIATION)
     take(lambda c: two(c) and mixed(c) and pattern(c) == ("fault",) and len(fault_of(c)) > 3 and c[0]["layout"] == "own" and c[0]["watch"] == "select"
          and not c[0].get("reused") and c[0]["hook"] == "none",
-         lambda c: ((kinds(c), c[0]["state"]) if victim_crit(c) else kinds(c)) if not quick else ((kinds(c) if victim_crit(c) else "non-critical")), 1)
+         lambda c: ((kinds(c), fault_of(c)[3], c[0]["state"]) if victim_crit(c) else (kinds(c), fault_of(c)[3])) if not quick else (
+             ((kinds(c) if fault_of(c)[3] == "recon" else fault_of(c)[3]) if victim_crit(c) else "non-critical")), 1)
     # the status reaction to a terminal status (INACTIVE) completes before the state reaction (ERROR) starts
     take(lambda c: two(c) and steps_of(c) == ("arms", "fault", "releases") and kinds(c)[0] in ("TASK_FAILED", "TASK_LOST", "TASK_KILLED")
          and c[0]["layout"] == "own",
@@ -415,7 +428,7 @@ def run(ctx):
     w = min(8, vlib.NCPU)
     few = ["TASK_FAILED", "TASK_FINISHED", "AGENT_LOST", "INTERNAL_ERROR"]
     # idle environment: every kind, a stale healthy state message of the dead task, a master-generated TASK_RUNNING update
-    ctx.model_check("Failure", None, workers=w, cfg_text=cfg_model(ctx, stale=1, mup=1))
+    ctx.model_check("Failure", None, workers=w, cfg_text=cfg_model(ctx, stale=1, mup=1, vias=ALLVIAS))
     ctx.model_check("Failure", None, workers=w, cfg_text=cfg_model(ctx, hooks=("early", "late", "after"), stale=1,
                                                                    kinds=["TASK_FAILED", "AGENT_LOST"] if quick else ALLKINDS,
                                                                    watch=("select",) if quick else ("select", "unsub", "busy")))
@@ -494,7 +507,7 @@ def run(ctx):
     # a master-generated TASK_RUNNING update before the fault; a task that dies owing its answer to the racing transition;
     # a stale healthy state message of the dead task - within and beyond the watcher's 500 ms
     n5 = gen(racing=True, stale=1, mup=1, kinds=NOT_IE, watch=("select",), layouts=("own",) if quick else ("own", "shared"),
-             extras=("mup", "owed", "stale", "order"))
+             extras=("mup", "owed", "stale", "order"), vias=("direct", "master", "masterrecon"))
     # a refused GO_ERROR (failing critical before_GO_ERROR hook) x a stale healthy state inside the watcher's grace period:
     # the forced state must be ERROR whatever the workflow says by then
     n5 += gen(hooks=("early", "late"), stale=1, kinds=["TASK_FAILED", "TASK_KILLED"], watch=("select",), layouts=("own",), extras=("stale",))
